@@ -129,7 +129,11 @@ fn main() {
                     let r = std::panic::catch_unwind(|| { let _ = p.tracing_level(); let _ = g.cc.encaps(&p, &ap("*")); let _ = g.cc.encaps(&p, &ap("D::a")); let _ = p.serialize().map(|s| s.len() == p.length()); });
                     (1, if r.is_ok() { 1 } else { 2 }) } },
                 "ST" => match AccessStructure::deserialize(&b) { Err(_) => (0, 0), Ok(s) => {
-                    let r = std::panic::catch_unwind(|| { let _ = s.dimensions().count(); let _ = s.attributes().count(); let _ = s.ap_to_usk_rights(&ap("*")).map(|r| r.len()); let _ = s.serialize().map(|x| x.len() == s.length()); });
+                    let r = std::panic::catch_unwind(|| { let _ = s.dimensions().count(); let _ = s.attributes().count(); let _ = s.ap_to_usk_rights(&ap("*")).map(|r| r.len()); let _ = s.serialize().map(|x| x.len() == s.length());
+                        // a parsed structure is edited: the identifier counter it carries comes from the bytes
+                        let mut s2 = s.clone(); let _ = s2.add_anarchy("zz".into());
+                        let _ = s2.add_attribute(qa("zz", "p"), EncryptionHint::Classic, None); let _ = s2.add_attribute(qa("zz", "q"), EncryptionHint::Hybridized, None);
+                        let _ = s2.serialize().map(|x| x.len() == s2.length()); });
                     (1, if r.is_ok() { 1 } else { 2 }) } },
                 "HDR" => match EncryptedHeader::deserialize(&b) { Err(_) => (0, 0), Ok(hd) => {
                     let r = std::panic::catch_unwind(|| { let _ = hd.decrypt(&g.cc, &g.usk, Some(b"ad")); let _ = hd.decrypt(&g.cc, &g.usk_h, None); let _ = hd.serialize().map(|s| s.len() == hd.length()); });
